@@ -83,7 +83,8 @@ def all_bases(tier: str):
         for c in chains.FAMILIES + chains.FAMILIES_AES:
             for h in ("raw", "encoded") + (("encrypted",) if "AES" in c else ()):
                 specs.append((c, h, 1))
-            specs.append((c, "raw", 3))
+            if "DEFLATE64" not in c:  # py7zr documents that appending with Deflate64 is not supported
+                specs.append((c, "raw", 3))
         specs += [("COPY", "encoded", 2), ("LZMA2", "encoded", 4)]
     for c, h, f in specs:
         out.append(py_base(c, h, f))
